@@ -2,8 +2,8 @@
    (VTop.v: candidates, instantiation pairs) is only touched by the first module that is not a `celldefine module
    (it becomes the candidate) and by instantiations of the current candidate. Hence: when that first module is
    instantiated by no module of the document, itself included, the reader returns it as the top - whatever else the
-   document contains. (When the root comes later the election can go wrong: open finding V06-top-election,
-   C06_top_clause_refuted.) *)
+   document contains: it is the candidate found while parsing, and elect_top (end of file) keeps it since it is among
+   the modules nobody instantiates. (The clause for a root anywhere in the file: VerilogTop.top_is_root_lemma.) *)
 From Coq Require Import List ZArith Bool Arith Lia.
 From SV Require Import Base.Base Fmt.VBits Fmt.VTop Fmt.VDoc Fmt.VElab Fmt.VSpec Fmt.VSem
   Proofs.VerilogLists Proofs.VerilogGrow Proofs.VElabBase Proofs.VElabInv Proofs.VElabWf Proofs.VElabExpr Proofs.VElabConn.
@@ -95,7 +95,8 @@ Qed.
 
 (* ---------- who is top ---------- *)
 Definition TopIs (ir : nat) (rname : str) (s : estate) : Prop :=
-  st_tops s = Some [ir] /\ (ir < length (st_defs s))%nat /\ ed_name (get_def ir s) = rname.
+  st_tops s = Some [ir] /\ (ir < length (st_defs s))%nat /\ ed_name (get_def ir s) = rname /\
+  (forall p, In p (st_ps s) -> fst p <> ir).     (* and no instance of it has been created *)
 
 Lemma names_prefix_get s s' extra k : names s' = names s ++ extra -> (k < length (st_defs s))%nat ->
   (k < length (st_defs s'))%nat /\ ed_name (get_def k s') = ed_name (get_def k s).
@@ -109,8 +110,8 @@ Qed.
 
 Lemma tstep_topis ir r s s' : tstep s s' -> TopIs ir r s -> TopIs ir r s'.
 Proof.
-  intros [T _ (ex & N)] (A & B & C). destruct (names_prefix_get s s' ex ir N B) as [L E].
-  split; [congruence|]. split; [exact L|congruence].
+  intros [T P (ex & N)] (A & B & C & D). destruct (names_prefix_get s s' ex ir N B) as [L E].
+  split; [congruence|]. split; [exact L|]. split; [congruence|]. rewrite P. exact D.
 Qed.
 
 (* an instantiation of a module other than the top leaves the top alone *)
@@ -123,10 +124,11 @@ Proof.
   assert (T1 : TopIs ir r s1) by (eapply tstep_topis; [eapply get_blackbox_tstep; exact G|exact T]).
   destruct (_ && _); [destruct (parents_of _ _); [destruct (forallb _ _)|]; discriminate|].
   assert (Hne : rk <> ir).
-  { intro E. subst rk. destruct T1 as (_ & _ & C). congruence. }
+  { intro E. subst rk. destruct T1 as (_ & _ & C & _). congruence. }
   assert (T2 : TopIs ir r (elect_step cur rk s1)).
-  { destruct T1 as (A & B & C). unfold elect_step. rewrite A. unfold step_inst. cbn [fst snd flat_map].
-    destruct (Nat.eqb_spec ir rk); [congruence|]. cbn [app]. split; [reflexivity|]. split; [exact B|exact C]. }
+  { destruct T1 as (A & B & C & D). unfold elect_step. rewrite A. unfold step_inst. cbn [fst snd flat_map].
+    destruct (Nat.eqb_spec ir rk); [congruence|]. cbn [app]. split; [reflexivity|]. split; [exact B|]. split; [exact C|].
+    cbn [st_ps set_elect]. intros p Hp. apply in_app_iff in Hp. destruct Hp as [Hp|[<-|[]]]; [apply D; exact Hp|exact Hne]. }
   set (s2 := elect_step cur rk s1) in *.
   apply bind_ok in H. destruct H as ([d1 ii] & H1 & H).
   destruct (add_inst_inv _ _ _ _ H1) as (N1 & _).
@@ -226,7 +228,7 @@ Proof.
   { destruct TS4 as [T4 _ _]. destruct TS2 as [T2 _ _]. rewrite T4, T3, T2, T1. reflexivity. }
   split.
   - destruct (vm_cell m).
-    + destruct (vm_body m) as [|b0 bs]; [discriminate|]. revert H6. apply fold_res_tstep. intros x a b. apply cell_item_tstep.
+    + revert H6. apply fold_res_tstep. intros x a b. apply cell_item_tstep.
     + exact H6.
   - inversion H; subst. destruct (vm_attrs m); [apply tstep_refl|]. apply upd_def_tstep. apply set_meta_dstep.
 Qed.
@@ -245,28 +247,29 @@ Proof.
   intros I Hb H T. destruct (vm_cell m) eqn:Hc.
   - eapply tstep_topis; [eapply module_decl_cell_tstep; eassumption|exact T].
   - destruct (module_decl_shape m s s' I H) as (cur & s4 & s5 & s6 & L4 & _ & I5 & L5 & T45 & (ex & N4) & P4 & T4 & B & T6).
-    rewrite Hc in T4, B. destruct T as (A & Bn & C). rewrite A in T4.
+    rewrite Hc in T4, B. destruct T as (A & Bn & C & D). rewrite A in T4.
     assert (TS4 : tstep s s4) by (constructor; [rewrite T4; symmetry; exact A|exact P4|exists ex; exact N4]).
-    assert (X4 : TopIs ir r s4) by (eapply tstep_topis; [exact TS4|split; [exact A|split; assumption]]).
+    assert (X4 : TopIs ir r s4) by (eapply tstep_topis; [exact TS4|split; [exact A|split; [assumption|split; assumption]]]).
     assert (X5 : TopIs ir r s5) by (eapply tstep_topis; eassumption).
     eapply tstep_topis; [exact T6|]. eapply fold_body_topis; [exact I5|exact L5|apply Hb; reflexivity|exact B|exact X5].
 Qed.
 
-Lemma module_decl_root_topis m s s' : Inv s -> st_tops s = None -> vm_cell m = false -> body_no_inst (vm_name m) (vm_body m) ->
+Lemma module_decl_root_topis m s s' : Inv s -> st_tops s = None -> st_ps s = [] -> vm_cell m = false -> body_no_inst (vm_name m) (vm_body m) ->
   module_decl m s = Ok s' -> exists ir, TopIs ir (vm_name m) s'.
 Proof.
-  intros I Tn Hc Hb H.
-  destruct (module_decl_shape m s s' I H) as (cur & s4 & s5 & s6 & L4 & N4c & I5 & L5 & T45 & _ & _ & T4 & B & T6).
+  intros I Tn Pn Hc Hb H.
+  destruct (module_decl_shape m s s' I H) as (cur & s4 & s5 & s6 & L4 & N4c & I5 & L5 & T45 & _ & P4 & T4 & B & T6).
   rewrite Hc in T4, B. rewrite Tn in T4. exists cur.
-  assert (X4 : TopIs cur (vm_name m) s4) by (split; [exact T4|split; assumption]).
+  assert (X4 : TopIs cur (vm_name m) s4).
+  { split; [exact T4|]. split; [assumption|]. split; [assumption|]. rewrite P4, Pn. intros p []. }
   assert (X5 : TopIs cur (vm_name m) s5) by (eapply tstep_topis; eassumption).
   eapply tstep_topis; [exact T6|]. eapply fold_body_topis; [exact I5|exact L5|exact Hb|exact B|exact X5].
 Qed.
 
 Lemma close_blackboxes_topis ir r s : TopIs ir r s -> TopIs ir r (close_blackboxes s).
 Proof.
-  intros (A & B & C). unfold close_blackboxes, TopIs. cbn [st_tops set_defs st_defs]. rewrite map_length.
-  split; [exact A|]. split; [exact B|]. unfold get_def in *. cbn [st_defs set_defs].
+  intros (A & B & C & D). unfold close_blackboxes, TopIs. cbn [st_tops set_defs st_defs]. rewrite map_length.
+  split; [exact A|]. split; [exact B|]. split; [|exact D]. unfold get_def in *. cbn [st_defs set_defs].
   destruct (nth_error (st_defs s) ir) as [x|] eqn:E; [|apply nth_error_None in E; lia].
   rewrite (nth_default_error _ _ _ _ E) in C.
   rewrite (nth_default_error _ ir dummy_def (match ed_lib x with None => set_meta x (Some true) true (ed_params x) (ed_attrs x) | Some _ => x end)).
@@ -295,13 +298,13 @@ Proof.
   { induction l1 as [|x l1 IH]; intros l2 a b Hf; cbn [app fold_res] in *; [exists a; split; [reflexivity|exact Hf]|].
     apply bind_ok in Hf. destruct Hf as (a1 & Ha1 & Hf). destruct (IH l2 a1 b Hf) as (c & Hc1 & Hc2). exists c. split; [rewrite Ha1; exact Hc1|exact Hc2]. }
   destruct (Split cells (m :: rest) s0 s1 H1) as (sc & Hc1 & Hc2).
-  assert (Xc : Inv sc /\ st_tops sc = None).
-  { eapply (fold_res_inv (fun x => Inv x /\ st_tops x = None) module_decl cells); [|split; [exact I0|reflexivity]|exact Hc1].
-    intros x a b Hx [Ia Ta] Hab. split; [eapply module_decl_inv; eassumption|].
+  assert (Xc : Inv sc /\ st_tops sc = None /\ st_ps sc = []).
+  { eapply (fold_res_inv (fun x => Inv x /\ st_tops x = None /\ st_ps x = []) module_decl cells); [|split; [exact I0|split; reflexivity]|exact Hc1].
+    intros x a b Hx (Ia & Ta & Pa) Hab. split; [eapply module_decl_inv; eassumption|].
     assert (Cx : vm_cell x = true) by (eapply (proj1 (Forall_forall _ _) Hcells); exact Hx).
-    destruct (module_decl_cell_tstep x a b Ia Cx Hab) as [T _ _]. congruence. }
-  destruct Xc as [Ic Tc]. cbn [fold_res] in Hc2. apply bind_ok in Hc2. destruct Hc2 as (sm & Hm1 & Hm2).
-  destruct (module_decl_root_topis m sc sm Ic Tc Hm (Hno m (or_introl eq_refl) Hm) Hm1) as (ir & Tm).
+    destruct (module_decl_cell_tstep x a b Ia Cx Hab) as [T P _]. split; congruence. }
+  destruct Xc as (Ic & Tc & Pc). cbn [fold_res] in Hc2. apply bind_ok in Hc2. destruct Hc2 as (sm & Hm1 & Hm2).
+  destruct (module_decl_root_topis m sc sm Ic Tc Pc Hm (Hno m (or_introl eq_refl) Hm) Hm1) as (ir & Tm).
   assert (Im : Inv sm) by (eapply module_decl_inv; eassumption).
   assert (X1 : Inv s1 /\ TopIs ir (vm_name m) s1).
   { eapply (fold_res_inv (fun x => Inv x /\ TopIs ir (vm_name m) x) module_decl rest); [|split; [exact Im|exact Tm]|exact Hm2].
@@ -312,5 +315,14 @@ Proof.
   { eapply (fold_res_inv (TopIs ir (vm_name m)) pending_one); [|apply close_blackboxes_topis; exact T1|exact H2].
     intros x a b _ Ta Hab. eapply tstep_topis; [eapply pending_one_tstep; exact Hab|exact Ta]. }
   unfold abs_state in Ha. apply bind_ok in Ha. destruct Ha as (t & Ht & Ha). inversion Ha; subst n. cbn [nv_top].
-  destruct T2 as (A & B & C). unfold final_top in Ht. rewrite A in Ht. cbn in Ht. inversion Ht; subst t. rewrite C. reflexivity.
+  destruct T2 as (A & B & C & D).
+  assert (P : parsed_top s = Ok (Some (vm_name m))) by (unfold parsed_top; rewrite A; cbn; rewrite C; reflexivity).
+  (* m is among the modules that no other module instantiates *)
+  assert (R : In ir (root_defs (cells ++ m :: rest) s)).
+  { unfold root_defs. apply filter_In. split; [apply in_seq; lia|]. apply andb_true_intro. split.
+    - apply existsb_exists. exists m. split; [apply in_or_app; right; left; reflexivity|]. rewrite Hm, C. cbn. apply str_eqb_refl.
+    - apply negb_true_iff. apply not_true_is_false. intro E. apply existsb_exists in E. destruct E as (p & Hp & E).
+      apply andb_prop in E. destruct E as [E _]. apply Nat.eqb_eq in E. exact (D p Hp E). }
+  unfold final_top in Ht. destruct (root_defs _ s) as [|k [|k2 l]]; [contradiction| |rewrite P in Ht; inversion Ht; reflexivity].
+  destruct R as [<-|[]]. inversion Ht. rewrite C. reflexivity.
 Qed.
